@@ -18,8 +18,8 @@ import nfc.clf.pn53x
 import nfc.clf.rcs380
 import nfc.clf.device
 from env import crc as crcref
-from env.hostlink import ACK, pn53x_frame
-from env.drivers import make_chipset, make_device
+from env.hostlink import ACK, pn53x_frame, Pn53xRfChip, Rcs380RfChip
+from env.drivers import make_chipset, make_device, MODEL
 from symx import ifconv, core
 
 PROPERTY = "C14"
@@ -527,6 +527,67 @@ def tt2_crc(sx, driver, n):
     return "data"
 
 
+def tt2_e2e(sx, driver, n):
+    """CRC_A of a Type A target's response, end to end: the target is
+    activated by the driver's real sense_tta() (PN53x family; this is where
+    the driver switches the chip's own CRC check off for SEL_RES b7,b6 = 00)
+    and the exchange goes through the real send_cmd_recv_rsp(); the chip model
+    checks the CRC itself if and only if the driver left the check enabled.
+    SEL_RES is an arbitrary byte, `air` are the n octets the tag sent."""
+    crcref.install_summary(sx)
+    dev, link = make_device(sx, driver)
+    sel = sx.byte("sel_res")
+    air = sx.bytes("air", n)
+    uid = [0x04, 0x51, 0x2C, 0x6A]
+    if driver == 'rcs380':
+        chip = Rcs380RfChip(sx, air, crcref.crc_a)
+        link.begin(chip=chip)
+        target = nfc.clf.RemoteTarget("106A", sens_res=bytearray(b"\x44\x00"),
+                                      sel_res=sx.mkbytes([sel]),
+                                      sdd_res=bytearray(uid))
+    else:
+        chip = Pn53xRfChip(sx, MODEL[driver], ([0x44, 0x00], [sel], uid), air,
+                           crcref.crc_a)
+        link.begin(chip=chip)
+        target = dev.sense_tta(nfc.clf.RemoteTarget("106A"))
+        if target is None or target.sel_res is None:
+            sx.check(False, "sense_tta-did-not-return-the-target:" + driver)
+    type2 = (sel & 0x60) == 0           # NFC Forum Type 2 Tag platform
+    tag = driver
+    outcome = None
+    try:
+        data = dev.send_cmd_recv_rsp(target, bytearray(b"\x30\x00"), 0.1)
+        outcome = "data"
+    except nfc.clf.TransmissionError:
+        outcome = "TransmissionError"
+    checked_by_chip = chip.check_crc_at_exchange if driver == 'rcs380' \
+        else chip.rxcrc_at_exchange
+    sx.reach("e2e:crc-by-" + ("chip" if checked_by_chip else "driver"))
+    valid = False
+    if n >= 3:
+        want = crcref.crc_a(list(air)[:n - 2])
+        valid = sx.all([air[n - 2] == (want & 0xFF), air[n - 1] == (want >> 8)])
+    if outcome == "TransmissionError":
+        sx.reach("e2e:rejected")
+        # a good frame must not be rejected
+        sx.check(sx.neg(valid), "e2e-valid-crc-rejected:" + tag)
+        if n <= 2:
+            # ACK/NAK and other short frames of a Type 2 Tag reach the caller
+            sx.check(sx.neg(type2), "e2e-type2-short-response-rejected:" + tag)
+        return outcome
+    sx.reach("e2e:data")
+    if n <= 2:
+        # nobody can have checked a CRC: only the Type 2 short-frame rule
+        # lets such a response through, unchanged
+        sx.check(type2, "e2e-short-response-without-crc-accepted:" + tag)
+        sx.check(items_eq(sx, data, air), "e2e-short-response-altered:" + tag)
+        return outcome
+    sx.check(valid, "e2e-wrong-crc-accepted:" + tag)
+    sx.check(items_eq(sx, data, list(air)[:n - 2]),
+             "e2e-data-not-the-frame-without-crc:" + tag)
+    return outcome
+
+
 # ----------------------------------------------------------------------------
 def partitions(tier):
     q = tier == "quick"
@@ -590,6 +651,11 @@ def partitions(tier):
     for d in ['pn532', 'rcs380'] + ([] if q else ['pn531', 'pn533', 'rcs956', 'acr122']):
         for n in range(0, (6 if q else 8) + 1):
             add("tt2crc:%s:%d" % (d, n), "tt2_crc", driver=d, n=n)
+    for d in PN + ['acr122', 'rcs380']:
+        for n in ([0, 1, 2, 3, 4, 5] if q else range(0, 9)):
+            if q and d in ('arygonA', 'arygonB', 'rcs956', 'pn533') and n in (0, 2, 4):
+                continue
+            add("tt2e2e:%s:%d" % (d, n), "tt2_e2e", driver=d, n=n)
     for p in parts:
         if p['name'].startswith(("accept:", "long:", "valid:")):
             # z3's default incremental core; the QF_BV tactic solver needs
@@ -606,11 +672,12 @@ MUST_REACH = ["built:pn53x:normal", "built:pn53x:extended", "built:ccid",
               "rejected:ccid", "crc-proved:a", "crc-proved:b",
               "crc-step-proved", "crc-accepted:a", "crc-rejected:a",
               "crc-accepted:b", "crc-rejected:b", "tt2:crc-ok",
-              "tt2:crc-error", "tt2:short"]
+              "tt2:crc-error", "tt2:short", "e2e:crc-by-chip",
+              "e2e:crc-by-driver", "e2e:rejected", "e2e:data"]
 
 BOUNDS = {
-    "quick": "construction: every command code of the chipset's CMD table x payload lengths {0,1,2,3,250..257,262,263 as far as the chip's maximum allows} (pn531, pn532 full set; pn533, rcs956, arygon A/B subset), ACR122 {0..3,250..252}, RC-S380 {0..3,252..257,289,290}, all payload contents; acceptance: every byte string of length 0..10 as response for command codes 02h/42h/8Ch (pn532: after the ACK, instead of the ACK, and with cmd_data=None; pn531: after the ACK), valid long frames with payload 252..255 (LEN 254..257) with 1-3 positions out of {LEN,LCS,bytes 5-7,TFI,code,middle,last,DCS,postamble} overwritten by arbitrary bytes (31 position sets) or cut/extended by 1-2 bytes, well-formed responses with 0..262 arbitrary payload bytes are returned intact, ACR122 responses of length 0..16 through command() and ccid_xfr_block(); CRC: calculate_crc == ISO 13239 reference for all messages of 0..5 bytes in one query and of 2..8, 12, 16 bytes by solver-checked induction over the prefixes (CRC_A and CRC_B presets), one byte from an arbitrary 16-bit register; add_crc_a/b, check_crc_a/b for all messages of 0..4 bytes and all CRC byte pairs; Type 2 Tag response CRC check of pn532 and rcs380 for all responses of 0..6 bytes",
-    "thorough": "as quick with all six PN53x chipset classes, response strings 0..16 (pn532 after-ACK: every command code of the table; ACR122 0..22), CRC equivalence 0..7 bytes in one query and every length 2..24 by prefix induction, add/check 0..6 bytes, Type 2 Tag check for six drivers and 0..8 bytes",
+    "quick": "construction: every command code of the chipset's CMD table x payload lengths {0,1,2,3,250..257,262,263 as far as the chip's maximum allows} (pn531, pn532 full set; pn533, rcs956, arygon A/B subset), ACR122 {0..3,250..252}, RC-S380 {0..3,252..257,289,290}, all payload contents; acceptance: every byte string of length 0..10 as response for command codes 02h/42h/8Ch (pn532: after the ACK, instead of the ACK, and with cmd_data=None; pn531: after the ACK), valid long frames with payload 252..255 (LEN 254..257) with 1-3 positions out of {LEN,LCS,bytes 5-7,TFI,code,middle,last,DCS,postamble} overwritten by arbitrary bytes (31 position sets) or cut/extended by 1-2 bytes, well-formed responses with 0..262 arbitrary payload bytes are returned intact, ACR122 responses of length 0..16 through command() and ccid_xfr_block(); CRC: calculate_crc == ISO 13239 reference for all messages of 0..5 bytes in one query and of 2..8, 12, 16 bytes by solver-checked induction over the prefixes (CRC_A and CRC_B presets), one byte from an arbitrary 16-bit register; add_crc_a/b, check_crc_a/b for all messages of 0..4 bytes and all CRC byte pairs; Type 2 Tag response CRC check (_tt2_send_cmd_recv_rsp) of pn532 and rcs380 for all responses of 0..6 bytes; end to end for all eight drivers: Type A target with an arbitrary SEL_RES byte activated through the real sense_tta() (PN53x family), exchange through the real send_cmd_recv_rsp(), the chip model checking CRC_A itself iff the driver left RxCRCEn (CIU_RxMode bit 7) / check_crc (RC-S380) enabled, all tag responses of 0..5 octets (pn531, pn532, acr122, rcs380; 1, 3, 5 octets for the others): wrong CRC -> TransmissionError, good CRC -> the data without the CRC octets, <= 2 octets only for SEL_RES b7,b6 = 00",
+    "thorough": "as quick with all six PN53x chipset classes, response strings 0..16 (pn532 after-ACK: every command code of the table; ACR122 0..22), CRC equivalence 0..7 bytes in one query and every length 2..24 by prefix induction, add/check 0..6 bytes, Type 2 Tag check for six drivers and 0..8 bytes, end-to-end CRC check for all drivers and 0..8 octets",
 }
 OUTSIDE = [
     "response byte strings longer than the bound other than the edited long frames; more than three overwritten positions in a long frame",
@@ -624,6 +691,7 @@ ASSUMPTIONS = [
     "env/crc.py reference(): MSB-first polynomial division by x^16+x^12+x^5+1 over the LSB-first bit sequence, checked at import against ISO/IEC 14443-3 Annex B examples",
     "symx/ifconv.py translation of nfc.clf.device.calculate_crc (re-read from the source on every run, validated by substitution of the repository's test vectors, Annex B vectors and 16 seeded random messages per length into the proven term)",
     "in crcapi/tt2crc partitions calculate_crc is replaced (symbolic mode only) by that translation; native replays of every path use the real function",
+    "env/hostlink.py Pn53xRfChip/Rcs380RfChip: register file (WriteRegister stores, ReadRegister returns), InListPassiveTarget(106A) leaves CIU_TxMode/RxMode at 80h, the receive path checks and strips CRC_A and reports 02h (RC-S380: 00000004h) iff RxCRCEn / check_crc is set, otherwise hands the octets over as received",
     "env/hostlink.py HostLink delivers whole frames; chipset objects are built by their real __init__ (ACR122/RC-S380 with the initialisation dialogue of the repository's tests)",
 ]
 LIMITS = {"quick": dict(max_time=200), "thorough": dict(max_time=1500)}
